@@ -357,7 +357,7 @@ func TestVerif_C19(t *testing.T) {
 			c, _ := randInvalidCfg(rng, 1+i%12)
 			cfg := c.Config()
 			l.cur = func() any { return c05Case{c, "new", "C19"} }
-			_, err := buildVia(entries[i%3], cfg)
+			_, err := buildVia(entries[i%len(entries)], cfg)
 			if err == nil {
 				continue // C04's business
 			}
@@ -372,7 +372,7 @@ func TestVerif_C19(t *testing.T) {
 				hi += m
 			}
 			if lc := leafCountByUnwrap(err); n != lc || n < lo || n > hi {
-				r.Violate("middleware-error-count", "All-vs-violations", fmt.Sprintf("All yields %d errors; the error tree has %d leaves; the configuration has between %d and %d individual violations | %s", n, lc, lo, hi, cfgString(&cfg)), c05Case{c, entries[i%3], "C19"})
+				r.Violate("middleware-error-count", "All-vs-violations", fmt.Sprintf("All yields %d errors; the error tree has %d leaves; the configuration has between %d and %d individual violations | %s", n, lc, lo, hi, cfgString(&cfg)), c05Case{c, entries[i%len(entries)], "C19"})
 			}
 			if n >= 2 {
 				l.NontrivialKey(cfgString(&cfg))
@@ -381,7 +381,7 @@ func TestVerif_C19(t *testing.T) {
 			calls := 0
 			cfgerrors.All(err)(func(error) bool { calls++; return false })
 			if calls != 1 {
-				r.Violate("yield-after-stop", "early-exit", fmt.Sprintf("middleware error, stop after 1: yield called %d times", calls), c05Case{c, entries[i%3], "C19"})
+				r.Violate("yield-after-stop", "early-exit", fmt.Sprintf("middleware error, stop after 1: yield called %d times", calls), c05Case{c, entries[i%len(entries)], "C19"})
 			}
 		}
 	})
